@@ -28,6 +28,9 @@ pub enum Beh {
     Error(u32),
     Silent,
     Disconnect,
+    /// a search answered entry by entry with 120 ms pauses (5 entries), the client using a 500 ms timeout: every
+    /// single wait stays far below the timeout, the whole search takes longer than it
+    Drip,
 }
 
 #[derive(Clone, Copy, Debug, PartialEq, Serialize, Deserialize)]
@@ -97,9 +100,17 @@ fn call() -> BoxedStrategy<Call> {
 
 fn strat(_: &Ctx) -> BoxedStrategy<Case> {
     let beh = prop_oneof![8 => Just(Beh::Success), 3 => proptest::sample::select(&[1u32, 4, 5, 6, 10, 32, 49, 53, 68][..]).prop_map(Beh::Error), 1 => Just(Beh::Silent), 1 => Just(Beh::Disconnect)];
+    // (weights x10 so that the slow 'Drip' behaviour can be rare)
+    let beh = prop_oneof![120 => beh, 1 => Just(Beh::Drip)];
     let step = (proptest::option::weighted(0.3, c19::req_controls(2)), proptest::option::weighted(0.3, (0u8..4, any::<bool>(), 0i32..1000, 0i32..1000)), call(), beh).prop_map(|(controls, search_opts, call, beh)| {
         // silence is only scripted together with a client timeout, so that both runs end
-        let timeout = beh == Beh::Silent;
+        // Drip only makes sense for a search that is read to the end
+        let (call, beh) = match (call, beh) {
+            (Call::Search { base, scope, filter, attrs, how, .. }, Beh::Drip) => (Call::Search { base, scope, filter, attrs, how, entries: 5, read: None }, Beh::Drip),
+            (c, Beh::Drip) => (c, Beh::Success),
+            x => x,
+        };
+        let timeout = beh == Beh::Silent || beh == Beh::Drip;
         Step { controls, timeout, search_opts, call, beh }
     });
     (0u8..4, vec(step, 1..8), any::<bool>())
@@ -182,6 +193,14 @@ fn server(mut sock: UnixStream, plan: Vec<(Beh, u8)>) -> Vec<Vec<u8>> {
                 // the client may already be gone; keep draining what it had written
                 let _ = sock.write_all(&out);
             }
+            Beh::Drip => {
+                for e in 0..entries {
+                    std::thread::sleep(Duration::from_millis(120));
+                    let _ = sock.write_all(&RespMsg::new(m.id, Resp::Entry(Entry { dn: format!("cn=e{}", e), attrs: vec![("cn".into(), vec![format!("e{}", e).into_bytes()])] })).encode());
+                }
+                std::thread::sleep(Duration::from_millis(120));
+                let _ = sock.write_all(&RespMsg::new(m.id, Resp::result(tag, Res { rc: 0, matched: "".into(), text: format!("r{}", k), refs: None })).encode());
+            }
             Beh::Silent => {}
             Beh::Disconnect => break,
         }
@@ -237,6 +256,7 @@ fn err_str(e: &ldap3::LdapError) -> String {
 }
 
 const TMO: Duration = Duration::from_millis(40);
+const DRIP_TMO: Duration = Duration::from_millis(500);
 
 fn mods_of(mods: &[(u8, String, Vec<String>)]) -> Vec<Mod<String>> {
     mods.iter()
@@ -267,7 +287,7 @@ fn run_sync(c: &Case, sock: UnixStream, path: Option<&str>) -> Result<Vec<String
             conn.with_controls(raw(cs));
         }
         if s.timeout {
-            conn.with_timeout(TMO);
+            conn.with_timeout(if s.beh == Beh::Drip { DRIP_TMO } else { TMO });
         }
         if let Some(o) = s.search_opts {
             conn.with_search_options(sopts(o));
@@ -354,7 +374,7 @@ async fn run_async_inner(c: &Case, sock: UnixStream, path: Option<String>) -> Re
             ldap.with_controls(raw(cs));
         }
         if s.timeout {
-            ldap.with_timeout(TMO);
+            ldap.with_timeout(if s.beh == Beh::Drip { DRIP_TMO } else { TMO });
         }
         if let Some(o) = s.search_opts {
             ldap.with_search_options(sopts(o));
@@ -537,7 +557,7 @@ pub fn property() -> Property {
     Property {
         id: "C14",
         level: "exploration",
-        rule: "generated scripts of 1-7 calls (+ optional unbind) over the whole LdapConn/EntryStream surface: all four constructors (with_settings / from_url_with_settings over a pre-opened Unix socket pair, new / from_url over a real ldapi:// path), with_controls, with_timeout, with_search_options, simple_bind, sasl_external_bind, search, streaming_search, streaming_search_with(EntriesOnly) with EntryStream::next/result/last_id (read to the end or stopped early), add, compare, delete, modify (all Mod kinds), modifydn, extended, abandon, last_id, is_closed, get_peer_certificate, unbind; per call a scripted server behaviour: success (with entries and a reference), an error code, silence (with a 40 ms client timeout) or disconnect (after a disconnect that the failing call observed, only the locally answered calls is_closed / get_peer_certificate / last_id follow). The script is run twice against the same server logic: through LdapConn and through Ldap on a fresh current-thread runtime. Oracle: both transcripts decode (harness RFC 4511 decoder) to the same request sequence after normalising SET OF order, with the same message ids and controls; every return value (result fields, error variant and carried LdapResult, stream items, last_id(), is_closed()) is equal. Non-trivial: >=2 calls with >=1 modifier or a stream. Distinct = debug rendering of the script.",
+        rule: "generated scripts of 1-7 calls (+ optional unbind) over the whole LdapConn/EntryStream surface: all four constructors (with_settings / from_url_with_settings over a pre-opened Unix socket pair, new / from_url over a real ldapi:// path), with_controls, with_timeout, with_search_options, simple_bind, sasl_external_bind, search, streaming_search, streaming_search_with(EntriesOnly) with EntryStream::next/result/last_id (read to the end or stopped early), add, compare, delete, modify (all Mod kinds), modifydn, extended, abandon, last_id, is_closed, get_peer_certificate, unbind; per call a scripted server behaviour: success (with entries and a reference), an error code, silence (with a 40 ms client timeout), a search dripping its entries at 120 ms intervals under a 500 ms timeout (no single wait near the timeout, the whole search longer than it), or disconnect (after a disconnect that the failing call observed, only the locally answered calls is_closed / get_peer_certificate / last_id follow). The script is run twice against the same server logic: through LdapConn and through Ldap on a fresh current-thread runtime. Oracle: both transcripts decode (harness RFC 4511 decoder) to the same request sequence after normalising SET OF order, with the same message ids and controls; every return value (result fields, error variant and carried LdapResult, stream items, last_id(), is_closed()) is equal. Non-trivial: >=2 calls with >=1 modifier or a stream. Distinct = debug rendering of the script.",
         assumptions: &["real time is used but never borderline: the server answers at once, or is silent and the client timeout is 40 ms in both runs; calls after a disconnect are not generated", "gssapi/ntlm methods are not compiled in the default feature set"],
         lanes: vec![Box::new(PLane { name: "scripts", cases: |t| t.pick(150, 2_000), strat, check })],
         workers: (8, 16),
